@@ -40,6 +40,11 @@ CLAIMED.update({
             "SSA partial evaluation per input byte -> DFA extraction -> product-automaton equivalence; symbolic decision tables (go/ssa abstract interpreter)", "§4 C13"),
 })
 
+CLAIMED.update({
+    "C12": ("Static decision on tables extracted from formats/json: every scanner state function is specialised for each of the 256 byte values (SSA partial evaluation), the end-of-input table, pair tables and IsOpening are extracted as well, and the resulting pushdown system is compared in lock step with a reference RFC 8259 recogniser over all bytes and all configurations up to nesting depth 3, with and without the trailing-characters option; mismatches are reported with a shortest witness. The scanner's stack observations are checked to be limited to len==0/len==1/top two entries, which is why bounded depth covers all behaviours. Does not decide lexeme spans, Len() values or tree equality with an independent decoder.",
+            "SSA partial evaluation per input byte -> pushdown system extraction -> product with a reference recogniser (bounded nesting + observation-depth argument)", "§4 C12"),
+})
+
 NOT_YET = {}
 
 NOT_APPLICABLE = {
